@@ -119,7 +119,7 @@ impl Key {
                 }
             }
         }
-        format!("x{}", hex(s.as_bytes()))
+        format!("x{}", hexs(s.as_bytes()))
     }
     /// as a scan prefix: `*` = "", a class letter = that class prefix, `x<hex>` otherwise
     fn show_pfx(self) -> String {
@@ -129,7 +129,7 @@ impl Key {
         }
         match CLASSES.iter().find(|c| c.prefix() == s) {
             Some(c) => c.ch().to_string(),
-            None => format!("x{}", hex(s.as_bytes())),
+            None => format!("x{}", hexs(s.as_bytes())),
         }
     }
     fn from_real(s: &str) -> Key {
@@ -151,6 +151,13 @@ impl Ord for Key {
         }
         self.real().cmp(&o.real())
     }
+}
+
+fn hexs(b: &[u8]) -> String {
+    b.iter().map(|x| format!("{x:02x}")).collect()
+}
+fn unhexs(h: &str) -> Vec<u8> {
+    (0..h.len() / 2).map(|i| u8::from_str_radix(&h[2 * i..2 * i + 2], 16).unwrap_or(0)).collect()
 }
 
 /// mirror of `metadata_slab::next_prefix(..).is_some()` for a non-empty prefix: the prefix with its
@@ -307,7 +314,7 @@ fn parse_key(s: &str) -> Option<Key> {
         if h.len() % 2 != 0 || !h.bytes().all(|b| b.is_ascii_hexdigit()) {
             return None;
         }
-        return String::from_utf8(unhex(h)).ok().map(|k| Key::of(&k));
+        return String::from_utf8(unhexs(h)).ok().map(|k| Key::of(&k));
     }
     let c = s.chars().next()?;
     let cls = CLASSES.iter().copied().find(|x| x.ch() == c)?;
@@ -503,13 +510,21 @@ fn site_key(site: &str, key: &str) -> String {
 /// `exclusive_emb`: the hypothesis of `emb_linearizable_partial` — a thread parked at the entry of
 /// an operation on an `emb:` key is not offered while another thread is inside an operation on the
 /// same key (parked at one of its `router.*` yield points).
-fn run_real(progs: &[Vec<Op>], wal: Option<SyncMode>, respect_lock: bool, exclusive_emb: bool, mut pick: impl FnMut(usize, &[usize], Option<usize>) -> Option<usize>) -> RunOut {
+fn run_real(progs: &[Vec<Op>], wal: Option<SyncMode>, variant: u8, respect_lock: bool, exclusive_emb: bool, mut pick: impl FnMut(usize, &[usize], Option<usize>) -> Option<usize>) -> RunOut {
     let dir = tempfile::tempdir().expect("tempdir");
     let wal_path = dir.path().join("store.wal");
     let cfg = wal.map(|m| WalConfig { sync_mode: m, ..WalConfig::default() });
     let store = match &cfg {
+        // `variant`: 0 = plain store, 1 = Bloom filter in front of get / exists, 2 = shard-access
+        // instrumentation, 3 = both (the filter and the tracker are invisible in the results)
+        Some(c) if variant & 1 == 1 => TensorStore::open_durable_with_bloom(&wal_path, c.clone(), 64, 0.01).expect("open_durable_with_bloom"),
         Some(c) => TensorStore::open_durable(&wal_path, c.clone()).expect("open_durable"),
-        None => TensorStore::new(),
+        None => match variant & 3 {
+            1 => TensorStore::with_bloom_filter(64, 0.01),
+            2 => TensorStore::with_instrumentation(1),
+            3 => TensorStore::with_bloom_and_instrumentation(64, 0.01, 1),
+            _ => TensorStore::new(),
+        },
     };
     let results: Arc<Mutex<Vec<Vec<Res>>>> = Arc::new(Mutex::new(vec![vec![]; progs.len()]));
     let tasks: Vec<Box<dyn FnOnce() + Send>> = progs
@@ -679,7 +694,8 @@ fn run_real(progs: &[Vec<Op>], wal: Option<SyncMode>, respect_lock: bool, exclus
             Ok(es) => es.iter().map(show_entry).collect::<Vec<_>>().join(","),
             Err(e) => format!("replay-error({e})"),
         });
-        match TensorStore::recover(&wal_path, c, None) {
+        let recovered = if variant & 1 == 1 { TensorStore::recover_with_bloom(&wal_path, c, None, 64, 0.01) } else { TensorStore::recover(&wal_path, c, None) };
+        match recovered {
             Ok(r) => {
                 rec_view = view_of(&r, &ks);
                 rimage = Some(show_view(&rec_view));
@@ -855,6 +871,11 @@ fn emb_ops_overlap(recs: &[HRec]) -> bool {
     })
 }
 
+/// `false` until the coordinator has decided about the finding (known finding or repair applied):
+/// the verdict of the exactness oracle for scans with a prefix without end key is an `observe`
+/// record; every other deviation of a scan from `starts_with` is a violation as before
+const SCAN_OVERRETURN_IS_VIOLATION: bool = false;
+
 // ------------------------------------------------------------------ generators
 
 struct Gen {
@@ -937,6 +958,68 @@ impl Gen {
     }
 }
 
+/// building blocks of the keys and prefixes of the `*.odd_keys` streams: characters whose last
+/// UTF-8 byte is 7F / BF (no end key: DEL, `¿` C2 BF, `ÿ` C3 BF, `п` D0 BF, `ӿ` D3 BF, U+FFFF EF BF BF,
+/// U+1F93F F0 9F A4 BF) and their neighbours in the same metadata shard, characters of 1-4 bytes, the
+/// class prefixes and strings that merely resemble them
+const PIECES: [&str; 34] = [
+    "a", "\u{7f}", "q", "п", "р", "ÿ", "ӿ", "é", "ê", "¿", "À", "€", "\u{ffff}", "😀", "\u{1f93f}", "e", "m", "b", ":", "_", "1", "2", "x", "u",
+    "emb:", "user:", "_cache:", "node:", "edge:", "table:", "emb", "cache:", "nodes:", "user",
+];
+
+impl Gen {
+    fn odd_key(&mut self, r: &mut Rng) -> Key {
+        if r.chance(1, 40) {
+            return Key::of("");
+        }
+        let n = 1 + r.below(3);
+        let s: String = (0..n).map(|_| *r.pick(&PIECES)).collect();
+        Key::of(&s)
+    }
+    fn odd_prefix(&mut self, r: &mut Rng, keys: &[Key]) -> Key {
+        match r.below(10) {
+            0 => Key::of(""),
+            1..=6 => {
+                // the first characters of one of the keys
+                let k = r.pick(keys).real();
+                let n = k.chars().count() as u64;
+                let take = if n == 0 { 0 } else { 1 + r.below(n) as usize };
+                Key::of(&k.chars().take(take).collect::<String>())
+            }
+            _ => {
+                let n = 1 + r.below(2);
+                Key::of(&(0..n).map(|_| *r.pick(&PIECES)).collect::<String>())
+            }
+        }
+    }
+    /// programs on a handful of keys that are arbitrary strings, a quarter of the operations scans
+    fn odd_progs(&mut self, r: &mut Rng, durable: bool, nthreads: usize) -> Vec<Vec<Op>> {
+        let nkeys = 2 + r.below(4) as usize;
+        let keys: Vec<Key> = (0..nkeys).map(|_| self.odd_key(r)).collect();
+        (0..nthreads)
+            .map(|_| {
+                let n = 1 + r.below(if nthreads == 1 { 8 } else { 3 }) as usize;
+                (0..n)
+                    .map(|_| {
+                        let k = *r.pick(&keys);
+                        let dur = durable && r.chance(9, 10);
+                        match r.below(100) {
+                            0..=39 => {
+                                let v = self.val(r, k);
+                                if dur { Op::PutD(k, v) } else { Op::Put(k, v) }
+                            }
+                            40..=51 => Op::Get(k),
+                            52..=63 => if dur { Op::DelD(k) } else { Op::Del(k) },
+                            64..=69 => Op::Ex(k),
+                            _ => Op::Scan(self.odd_prefix(r, &keys)),
+                        }
+                    })
+                    .collect()
+            })
+            .collect()
+    }
+}
+
 // ------------------------------------------------------------------ one case
 
 /// the replayable input of a case (`line`, and `mutex` / `grants` of a real-mutex run) + details
@@ -961,6 +1044,9 @@ struct Ctx<'a> {
     /// no harness-side mirror of the log mutex: durable writers are granted while the mutex is held
     /// and block on the REAL mutex (see the head of this file)
     real_mutex: bool,
+    /// how the store is built (see `run_real`): 0 plain, 1 Bloom filter, 2 instrumentation, 3 both
+    variant: u8,
+    scan_observed: u32,
 }
 
 impl Ctx<'_> {
@@ -980,7 +1066,7 @@ impl Ctx<'_> {
         // must be reproduced on every run, also on a loaded machine
         for _attempt in 0..(if sched.is_some() { 12 } else { 3 }) {
             let mut r2 = rng.clone();
-            let o = run_real(progs, wal, !self.real_mutex, self.exclusive_emb, |i, ids, holder| match sched {
+            let o = run_real(progs, wal, self.variant, !self.real_mutex, self.exclusive_emb, |i, ids, holder| match sched {
                 Some(s) => s.get(i).copied(),
                 // while somebody waits for the mutex every scheduling decision costs the stall window:
                 // let the holder go on half of the time
@@ -1026,6 +1112,24 @@ impl Ctx<'_> {
             self.rep.hit(&format!("site:{s}"));
         }
         for r in &o.hist {
+            match r.op {
+                Op::Scan(p) => {
+                    let s = p.real();
+                    self.rep.hit(if s.is_empty() { "scan:empty_prefix" } else if !has_end_key(&s) { "scan:prefix_without_end_key" } else if CLASSES.iter().any(|c| c.prefix() == s) { "scan:class_prefix" } else { "scan:prefix_with_end_key" });
+                }
+                _ => {
+                    if let Some(k) = r.op.key() {
+                        let s = k.real();
+                        if s.is_empty() {
+                            self.rep.hit("key:empty");
+                        } else if !s.is_ascii() {
+                            self.rep.hit("key:multibyte");
+                        } else if k.show().starts_with('x') {
+                            self.rep.hit("key:not_a_class_alias");
+                        }
+                    }
+                }
+            }
             let c = r.op.key().map_or("scan", |k| k.cls().name());
             self.rep.hit(&format!("op:{}:{}", r.op.kind(), c));
             self.rep.hit(&format!("res:{}", match &r.res { Res::Ok => "ok", Res::Nf => "not_found", Res::Found(_) => "found", Res::Bool(true) => "true", Res::Bool(false) => "false", Res::Keys(_) => "keys", Res::Other(_) => "other" }));
@@ -1081,7 +1185,7 @@ impl Ctx<'_> {
     /// blocked thread where it is).  If the mutex were released before the apply (the code before
     /// dfea2ecb) the script executes as written and the durable oracle reports the reversal.
     fn mutex_probe(&mut self, progs: &[Vec<Op>], sched: &[usize]) {
-        let o = run_real(progs, Some(SyncMode::Immediate), false, false, |i, _, _| sched.get(i).copied());
+        let o = run_real(progs, Some(SyncMode::Immediate), 0, false, false, |i, _, _| sched.get(i).copied());
         let line = format!("run 1 {} {}", show_progs(progs), show_sched(sched));
         self.rep.case("probe.log_mutex", Some(&line));
         self.rep.hit(if o.stalled { "probe:second_durable_writer_blocked_on_real_log_mutex" } else { "probe:second_durable_writer_not_blocked" });
@@ -1153,6 +1257,33 @@ impl Ctx<'_> {
             self.rep.hit("oracle:quiescent_views_coherent");
         }
         let stale_scan = progs.iter().flatten().any(|op| matches!(op, Op::PutD(k, v) if k.cls() != Cls::E && k.cls() != Cls::C && v.vec != VecF::N));
+        // a scan whose prefix has no end key (`next_prefix` = None: last byte 7F / BF) returns the
+        // rest of its metadata shard (Lean: scan_prefix_without_successor_witness,
+        // scan_unbounded_prefix_returns_rest_of_shard).  When the history is linearizable once
+        // such scans are allowed EXACTLY that result, the finding is the scan's over-return.
+        let no_end_key = scans_without_end_key(&hist);
+        if !ok && !no_end_key.is_empty() && linearizable_with(&hist, true).0 {
+            let class = "tensor_store.metadata_slab.scan/prefix_without_end_key_returns_rest_of_shard";
+            let what = "scan(prefix) returned keys that do not start with the prefix: next_prefix(prefix) is None because the prefix with its last byte plus one is not UTF-8 (last byte 0x7F or 0xBF), and MetadataSlab::scan then reads the rest of the shard";
+            let extra: Vec<String> = hist
+                .iter()
+                .filter_map(|r| match (&r.op, &r.res) {
+                    (Op::Scan(p), Res::Keys(ks)) if !has_end_key(&p.real()) => Some(format!("scan({:?}) -> {:?}", p.real(), ks.iter().map(|k| k.real()).collect::<Vec<_>>())),
+                    _ => None,
+                })
+                .collect();
+            let input = with(base, json!({"class": class, "what": what, "scans": extra, "real_history": o.hist_s}));
+            self.rep.hit(&format!("observe:{class}"));
+            if SCAN_OVERRETURN_IS_VIOLATION {
+                self.violation(class, what, input);
+            } else {
+                self.scan_observed += 1;
+                if self.scan_observed <= 3 {
+                    self.rep.observe(input);
+                }
+            }
+            return self.durable_oracle(progs, wal, o, base, &incoherent);
+        }
         if !ok {
             let (cls, mix) = classify_nonlin(&hist);
             if cls == "scan" && mix.is_none() && stale_scan {
@@ -1284,7 +1415,7 @@ fn main() {
             if let Some(progs) = parse_progs(f[2]) {
                 let real_mutex = v["failing_input"]["mutex"].as_str() == Some("real");
                 let sched = parse_sched(if real_mutex { v["failing_input"]["grants"].as_str().unwrap_or(f[3]) } else { f[3] });
-                let mut ctx = Ctx { rep: &mut rep, model: &mut model, viol_count: BTreeMap::new(), budget_hits: 0, stalls: 0, exclusive_emb: false, real_mutex };
+                let mut ctx = Ctx { rep: &mut rep, model: &mut model, viol_count: BTreeMap::new(), budget_hits: 0, stalls: 0, exclusive_emb: false, real_mutex, variant: 0, scan_observed: 0 };
                 let mut r = root.fork("replay");
                 let wal = if f[1] == "1" { Some(SyncMode::Immediate) } else { None };
                 if let Some(o) = ctx.case("replay", &progs, wal, Some(&sched), &mut r, true) {
@@ -1297,9 +1428,60 @@ fn main() {
     }
 
     let scale: u64 = if args.thorough { 12 } else { 1 };
-    let mut ctx = Ctx { rep: &mut rep, model: &mut model, viol_count: BTreeMap::new(), budget_hits: 0, stalls: 0, exclusive_emb: false, real_mutex: false };
+    let mut ctx = Ctx { rep: &mut rep, model: &mut model, viol_count: BTreeMap::new(), budget_hits: 0, stalls: 0, exclusive_emb: false, real_mutex: false, variant: 0, scan_observed: 0 };
 
-    // ---- FIRST: durable writers of ONE key racing on the REAL log mutex, by directed schedules
+    // ---- FIRST: prefix scans over keys that are arbitrary strings, sequential and directed
+    //      (deterministic for every seed): prefixes without an end key (`next_prefix` = None: the
+    //      reported over-return), prefixes that cut across key classes, the empty key, keys that
+    //      resemble a class prefix, characters of 1-4 bytes; with and without the log
+    {
+        let mut r = root.fork("directed.scan_prefix");
+        let k = |s: &str| Key::of(s);
+        let v = |t: u32| Val { tag: t, vec: VecF::N };
+        let g = |t: u32| Val { tag: t, vec: VecF::Good(t) };
+        let scenarios: Vec<(&str, Vec<Op>)> = vec![
+            // the report: put("q1"), put("a\x7fx"), scan("a\x7f") returns both
+            ("del_prefix_returns_rest_of_shard", vec![Op::Put(k("q1"), v(1)), Op::Put(k("a\u{7f}x"), v(2)), Op::Scan(k("a\u{7f}")), Op::Scan(k("a")), Op::Scan(k("q")), Op::Scan(k("a\u{7f}x"))]),
+            // put("ӿx"), scan("ÿ") returns it (C3 BF -> C3 C0 is not UTF-8; D3 and C3 are both 3 mod 16)
+            ("bf_prefix_returns_rest_of_shard", vec![Op::Put(k("ӿx"), v(1)), Op::Put(k("ÿ1"), v(2)), Op::Scan(k("ÿ")), Op::Scan(k("ӿ")), Op::Scan(k("ÿ1"))]),
+            // a realistic one: user names in Cyrillic, prefix ending in `п` (D0 BF)
+            ("cyrillic_prefix", vec![Op::Put(k("user:п1"), v(1)), Op::Put(k("user:р2"), v(2)), Op::Put(k("user:я"), v(3)), Op::Put(k("uzz"), v(4)), Op::Put(k("emb:1"), g(5)), Op::Scan(k("user:п")), Op::Scan(k("user:")), Op::Scan(k("user:р")), Op::Del(k("user:п1")), Op::Scan(k("user:п"))]),
+            // the over-return reaches the keys of OTHER classes in the shard (`e` and `u` are both 5 mod 16)
+            ("over_return_crosses_classes", vec![Op::Put(k("emb:1"), g(1)), Op::Put(k("edge:1"), v(2)), Op::Put(k("user:1"), v(3)), Op::Put(k("eve"), v(4)), Op::Scan(k("e\u{7f}")), Op::Scan(k("emb:\u{7f}")), Op::Scan(k("e"))]),
+            // prefixes that cut across classes: metadata range + entity index + cache ring
+            ("prefix_across_classes", vec![Op::Put(k("emb:1"), g(1)), Op::Put(k("emb:2"), v(2)), Op::Put(k("edge:1"), v(3)), Op::Put(k("eve"), v(4)), Op::Put(k("_cache:e"), v(5)), Op::Put(k("_x"), v(6)), Op::Scan(k("e")), Op::Scan(k("em")), Op::Scan(k("emb:")), Op::Scan(k("_")), Op::Scan(k("_cache:")), Op::Scan(k("_cache:e")), Op::Del(k("emb:1")), Op::Scan(k("e")), Op::Scan(k(""))]),
+            // the empty key (shard 0) and the empty prefix
+            ("empty_key", vec![Op::Get(k("")), Op::Put(k(""), v(1)), Op::Get(k("")), Op::Ex(k("")), Op::Scan(k("")), Op::Put(k("0"), v(2)), Op::Scan(k("0")), Op::Del(k("")), Op::Scan(k("")), Op::Del(k(""))]),
+            // strings that resemble a class prefix are plain keys; `edge:` is the graph class
+            ("class_lookalikes", vec![Op::Put(k("emb"), g(1)), Op::Put(k("embx"), g(2)), Op::Put(k("cache:1"), v(3)), Op::Put(k("_cache"), v(4)), Op::Put(k("nodes:1"), v(5)), Op::Put(k("edge:1"), v(6)), Op::Put(k("emb:"), g(7)), Op::Get(k("emb")), Op::Get(k("emb:")), Op::Scan(k("emb")), Op::Scan(k("emb:")), Op::Scan(k("_cache")), Op::Scan(k("node")), Op::Del(k("emb")), Op::Del(k("emb:")), Op::Scan(k("e"))]),
+            // characters of 2, 3 and 4 bytes; prefixes that end in them
+            ("multibyte", vec![Op::Put(k("é"), v(1)), Op::Put(k("éa"), v(2)), Op::Put(k("ê"), v(3)), Op::Put(k("€1"), v(4)), Op::Put(k("€"), v(5)), Op::Put(k("😀x"), v(6)), Op::Put(k("\u{1f93f}y"), v(7)), Op::Put(k("\u{ffff}z"), v(8)), Op::Scan(k("é")), Op::Scan(k("€")), Op::Scan(k("😀")), Op::Scan(k("\u{1f93f}")), Op::Scan(k("\u{ffff}")), Op::Scan(k("À"))]),
+        ];
+        for (name, prog) in scenarios {
+            for durable in [false, true] {
+                let prog: Vec<Op> = prog
+                    .iter()
+                    .map(|op| match op {
+                        Op::Put(k, v) if durable => Op::PutD(*k, *v),
+                        Op::Del(k) if durable => Op::DelD(*k),
+                        o => *o,
+                    })
+                    .collect();
+                let before = ctx.scan_observed;
+                ctx.case(&format!("directed.scan_prefix.{name}"), &[prog], if durable { Some(SyncMode::Immediate) } else { None }, None, &mut r, true);
+                if name.ends_with("returns_rest_of_shard") || name == "cyrillic_prefix" || name == "over_return_crosses_classes" {
+                    ctx.rep.hit(if ctx.scan_observed > before { "scan_over_return_reproduced_on_real_store" } else { "scan_over_return_not_reproduced_on_real_store" });
+                }
+            }
+        }
+        // two threads: a scan with such a prefix racing puts and deletes of keys of its shard
+        let two = vec![vec![Op::Put(k("a\u{7f}x"), v(1)), Op::Del(k("q1")), Op::Put(k("b"), v(2))], vec![Op::Put(k("q1"), v(3)), Op::Scan(k("a\u{7f}")), Op::Scan(k("a")), Op::Scan(k("a\u{7f}"))]];
+        for _ in 0..(4 * scale) {
+            ctx.case("directed.scan_prefix.two_threads", &two, None, None, &mut r, true);
+        }
+    }
+
+    // ---- durable writers of ONE key racing on the REAL log mutex, by directed schedules
     //      (deterministic for every seed).  A thread is granted its `store.*_durable` step while the
     //      other is between its log step and its apply: it runs up to `Mutex::lock`, blocks, and
     //      takes its log step when the holder has applied.  Whatever the code does between the
@@ -1491,8 +1673,27 @@ fn main() {
             let nthreads = 2 + (i % 7) as usize; // 2..=8
             let progs = g.progs(&mut r, durable, classes, nthreads);
             let wal = if durable { Some(if i % 16 == 0 { SyncMode::Immediate } else { SyncMode::Manual }) } else { None };
+            // every third case on a store with a Bloom filter and / or the access tracker
+            ctx.variant = if i % 3 == 2 { 1 + ((i / 3) % 3) as u8 } else { 0 };
+            ctx.rep.hit(["store:plain", "store:bloom_filter", "store:instrumentation", "store:bloom_filter_and_instrumentation"][ctx.variant as usize]);
             ctx.case(stream, &progs, wal, None, &mut r, true);
         }
+        ctx.variant = 0;
+    }
+
+    // ---- keys and prefixes that are arbitrary strings (see `PIECES`): 1-4 threads, a quarter of
+    //      the operations prefix scans; without and with the log (recovered = live per key)
+    for (stream, durable, n) in [("random.odd_keys", false, 150u64), ("random.odd_keys_durable", true, 60)] {
+        let mut r = root.fork(stream);
+        let mut g = Gen { next_tag: 0 };
+        for i in 0..(n * scale) {
+            let nthreads = 1 + (i % 4) as usize;
+            let progs = g.odd_progs(&mut r, durable, nthreads);
+            let wal = if durable { Some(if i % 8 == 0 { SyncMode::Immediate } else { SyncMode::Manual }) } else { None };
+            ctx.variant = if i % 5 == 4 { 1 } else { 0 };
+            ctx.case(stream, &progs, wal, None, &mut r, true);
+        }
+        ctx.variant = 0;
     }
 
     // ---- durable runs on the REAL log mutex: seeded programs and schedules in which durable
@@ -1565,6 +1766,9 @@ fn main() {
         "real_mutex:delete_durable_behind_put_durable_same_key", "real_mutex:put_durable_behind_delete_durable_same_key",
         "real_mutex:put_durable_behind_put_durable_same_key", "real_mutex:delete_durable_behind_delete_durable_same_key",
         "oracle:keys_compared_live_vs_recovered",
+        "store:plain", "store:bloom_filter", "store:instrumentation", "store:bloom_filter_and_instrumentation",
+        "scan:prefix_without_end_key", "scan:prefix_with_end_key", "scan:empty_prefix", "scan:class_prefix",
+        "key:not_a_class_alias", "key:empty", "key:multibyte",
     ]
     .iter()
     .map(|s| s.to_string())
